@@ -785,6 +785,35 @@ phosg::Image build_image(const Pic& p) {
   return img;
 }
 
+// The property does not say that the different save entry points (string, FILE*, filename) must produce the same
+// BYTES, only that what they produce is a valid file holding the picture. If they differ, the other output is
+// judged on its own: 8-bit files by the independent decoder of its container (0 PPM, 1 BMP, 2 PNG), wide PPM by
+// loading it back. Returns "" if it is a valid encoding of `expect`.
+string judge_alternative_encoding(const string& bytes, unsigned container, const Pic& expect) {
+  if (expect.cw == 8) {
+    Pic dec;
+    std::vector<size_t> marks;
+    string err = container == 0 ? dec_ppm8(bytes, dec, marks) : (container == 1 ? dec_bmp(bytes, dec, marks) : dec_png(bytes, dec, marks));
+    if (!err.empty()) return "not a valid file for an independent decoder: " + err;
+    return pic_diff(dec, expect, true);
+  }
+  auto ino = std::make_shared<vfs::Inode>();
+  ino->kind = vfs::Kind::REG;
+  ino->data = bytes;
+  FILE* f = vfs::fopen_inode(ino, "r", nullptr, true);
+  string res;
+  try {
+    phosg::Image back(f);
+    Pic got;
+    extract(back, got);
+    res = pic_diff(got, expect, true);
+  } catch (const std::exception& e) {
+    res = string("rejected by the loader: ") + e.what();
+  }
+  fclose(f);
+  return res;
+}
+
 string short_kind(const string& k) {
   size_t s = k.find('/');
   return s == string::npos ? k : k.substr(0, s);
@@ -860,8 +889,13 @@ void intruder_job() {
   }
   fclose(f);
   if (I.failure_class.empty() && ino->data != *I.want_bytes) {
-    I.failure_class = "save/file_differs_from_string";
-    I.failure_text = "the second thread's save(FILE*) wrote " + std::to_string(ino->data.size()) + " bytes that differ from what the same image gives when saved alone (" + std::to_string(I.want_bytes->size()) + " bytes)";
+    // other bytes than the same image gives when saved alone through save(Format): fine if they are a valid file
+    unsigned cont = I.fmt == phosg::Image::Format::COLOR_PPM ? 0 : (I.fmt == phosg::Image::Format::WINDOWS_BITMAP ? 1 : 2);
+    string why = judge_alternative_encoding(ino->data, cont, *I.want_pic);
+    if (!why.empty()) {
+      I.failure_class = "save/file_differs_from_string";
+      I.failure_text = "the second thread's save(FILE*) wrote " + std::to_string(ino->data.size()) + " bytes that differ from what the same image gives when saved alone (" + std::to_string(I.want_bytes->size()) + " bytes) and are not a valid encoding of it: " + why;
+    }
   }
   if (I.failure_class.empty() && I.load_back) {
     FILE* g = vfs::fopen_inode(ino, "r", nullptr, true);
@@ -990,7 +1024,11 @@ static void run() {
         fail("save/threw", fname, string("Image::save(FILE*) threw on a healthy disk: ") + e.what());
       }
       fclose(f);
-      if (ino->data != enc.bytes) fail("save/file_differs_from_string", fname, "save(FILE*) wrote " + std::to_string(ino->data.size()) + " bytes that differ from save(Format) (" + std::to_string(enc.bytes.size()) + " bytes)");
+      if (ino->data != enc.bytes) {
+        string why = judge_alternative_encoding(ino->data, container, enc.expect);
+        if (!why.empty()) fail("save/file_differs_from_string", fname, "save(FILE*) wrote " + std::to_string(ino->data.size()) + " bytes that differ from save(Format) (" + std::to_string(enc.bytes.size()) + " bytes) and are not a valid encoding of the picture either: " + why);
+        VS_PROBE("save_paths_differ_both_valid");
+      }
     }
     // save(filename) onto the simulated disk (fopen is routed to the simulated file system)
     if (choose(4, "save.by_name") == 3) {
@@ -1010,7 +1048,12 @@ static void run() {
       }
       vfs::world().hand_out_fd0 = false;
       auto n = vfs::lookup(path);
-      if (!n || n->data != enc.bytes) fail("save/file_differs_from_string", string(fname) + "/by_name", "save(filename) left " + std::to_string(n ? n->data.size() : 0) + " bytes on disk that differ from save(Format) (" + std::to_string(enc.bytes.size()) + " bytes)");
+      if (!n) fail("save/file_differs_from_string", string(fname) + "/by_name", "save(filename) left no file on disk");
+      if (n->data != enc.bytes) {
+        string why = judge_alternative_encoding(n->data, container, enc.expect);
+        if (!why.empty()) fail("save/file_differs_from_string", string(fname) + "/by_name", "save(filename) left " + std::to_string(n->data.size()) + " bytes on disk that differ from save(Format) (" + std::to_string(enc.bytes.size()) + " bytes) and are not a valid encoding of the picture either: " + why);
+        VS_PROBE("save_paths_differ_both_valid");
+      }
       if (vfs::open_fd_count()) fail("save/stream_left_open", fname, "save(filename) did not close the file");
       VS_PROBE("saved_by_filename");
       if (container != 2) {
@@ -1211,7 +1254,7 @@ static void run() {
         }
         fclose(f);
         judge_intruder("save");
-        if (ino->data != enc.bytes)
+        if (ino->data != enc.bytes && !judge_alternative_encoding(ino->data, container, enc.expect).empty())
           fail("save/file_differs_from_string", "second_thread/save", "save(FILE*) wrote " + std::to_string(ino->data.size()) + " bytes that differ from save(Format) (" + std::to_string(enc.bytes.size()) + " bytes) when a second thread saved a different image in the middle of the call");
       }
       // (2) during this thread's load
